@@ -129,9 +129,10 @@ class SignedBytes(Obligation):
         b=self.b; fb=lambda f,d: self.focus_bytes(run,f,d)
         readme=fb('readme','r'); sname=fb('step_name','s0'); pat=fb('rule_pattern','*'); pre=fb('rule_prefix','d'); irun=fb('inspection_run','true'); ecmd=fb('expected_command','make')
         thr=z3.BitVec('thr',32) if run.ghost['focus']=='numbers' else 2; kval=list(FIXTURE_ED25519_PUB); kid=ed25519_keyid(bytes(kval))
-        secs=[4102444800,1700000000,0][run.pick(3,'expiry')]
+        secs,nanos=[(4102444800,0),(1700000000,0),(0,0),(1483228799,1000000000)][run.pick(4,'expiry')]      # the last one is a leap second
         import datetime
         etxt=(datetime.datetime(1970,1,1)+datetime.timedelta(seconds=secs)).strftime('%Y-%m-%dT%H:%M:%SZ')
+        if nanos: etxt=etxt.replace(':59Z',':60Z')
         rule1=b.variant('ArtifactRule','Match',[{'pattern':Agg('VirtualTargetPath',[StringO(pat)]),'in_src':some(StringO(pre)),'with':b.variant('Artifact','Products'),'in_dst':none(),'from':mk_string('t')}[n] for n in self.eng.src.enum_payload['ArtifactRule']['Match']])
         rule2=b.rule('Disallow','*')
         step=b.struct('Step',typ=mk_string('step'),threshold=Int(32,False,thr),name=StringO(sname),expected_materials=VecO([rule1]),expected_products=VecO([rule2]),pub_keys=VecO([b.keyid(kid)]),expected_command=Agg('Command',[VecO([StringO(ecmd)])]))
@@ -141,7 +142,7 @@ class SignedBytes(Obligation):
         # the signed bytes must then say so, i.e. carry the table as it is (the identifier -> key association is signed content)
         mapid=kid if (self.wire or run.ghost['focus']!='numbers' or run.pick(2,'table_id')==0) else 'ab'*32      # varied together with the numbers focus only (cost)
         run.ghost['via_api']=(mapid!=kid)
-        lay=b.struct('LayoutMetadata',steps=VecO([step]),inspect=VecO([insp]),keys=b.hashmap([(b.keyid(mapid),key)]),expires=b.datetime(secs),readme=StringO(readme))
+        lay=b.struct('LayoutMetadata',steps=VecO([step]),inspect=VecO([insp]),keys=b.hashmap([(b.keyid(mapid),key)]),expires=b.datetime(secs,nanos),readme=StringO(readme))
         tree=O(('_type',S('layout')),('expires',S(etxt)),('readme',('str',readme)),
                ('keys',O((mapid,O(('keyid',S(kid)),('keyid_hash_algorithms',A(S('sha256'),S('sha512'))),('keytype',S('ed25519')),('keyval',O(('private',S('')),('public',('str',hexs(kval))))),('scheme',S('ed25519')))))),
                ('steps',A(O(('_type',S('step')),('name',('str',sname)),('threshold',('intval',32,False,thr)),
